@@ -8,8 +8,14 @@ Local Open Scope N_scope.
 
 Definition okb (n : N) (b : bytes) : bool := is_bytes b && (blen b =? n).
 Definition ookb (n : N) (o : option bytes) : bool := match o with Some b => okb n b | None => true end.
-Definition items_ok (l : list item) : bool :=
-  forallb (fun i => (4 <=? fst i) && (fst i <=? MAX_TYPECODE) && is_bytes (snd i)) l.
+(** unknown items of a key: typecodes 4 .. MAX_TYPECODE strictly ascending, data within the
+    CompactSize bound *)
+Fixpoint asc_okb (prev : N) (l : list item) : bool :=
+  match l with
+  | [] => true
+  | (c, d) :: r => (prev <? c) && (c <=? MAX_TYPECODE) && (blen d <=? MAX_COMPACT_SIZE) && is_bytes d && asc_okb c r
+  end.
+Definition items_ok (l : list item) : bool := asc_okb 3 l.
 
 Definition wf_usk (k : usk) : bool :=
   okb USK_P2PKH_LEN (usk_t k) && okb USK_SAPLING_LEN (usk_s k) && okb USK_ORCHARD_LEN (usk_o k).
@@ -56,6 +62,32 @@ Definition gwf (c : gcase) : bool :=
       && match find with Ok (Some gs) => gs <=? NON_HARDENED_MAX | _ => true end
   end.
 
+Definition ores_isb (r : ores) (b : bytes) : bool := match r with OSome x => bytes_eqb x b | _ => false end.
+Definition fixb (t : otab) (f : N) (o : option bytes) : bool :=
+  match o with Some b => ores_isb (look_ores t f b 0) b | None => true end.
+
+(** what the harness claims with [orig] *)
+Definition usk_claim (t : otab) (k : usk) (b : bytes) : bool :=
+  bytes_eqb b (usk_to_bytes k)
+  && ores_isb (look_ores t 10 (usk_o k) 0) (usk_o k) && ores_isb (look_ores t 11 (usk_s k) 0) (usk_s k)
+  && ores_isb (look_ores t 12 (usk_t k) 0) (usk_t k)
+  && is_some (look_opt t 6 (look_bytes t 3 (usk_t k) 0) 0).
+Definition ufvk_claim (t : otab) (net : N) (k : ufvk) (i : dinput) : bool :=
+  match i with
+  | Bech hrp (Some raw) => outcome_eqb enc_eqb unit_eqb (ufvk_encode net k) (Ok (hrp, raw))
+  | _ => false
+  end
+  && fixb t 15 (fvk_t k) && fixb t 14 (fvk_s k) && fixb t 13 (fvk_o k)
+  && match fvk_t k with Some pk => is_some (look_opt t 6 pk 0) | None => true end.
+Definition uivk_claim (t : otab) (net : N) (k : uivk) (i : dinput) : bool :=
+  match i with
+  | Bech hrp (Some raw) => outcome_eqb enc_eqb unit_eqb (uivk_encode net k) (Ok (hrp, raw))
+  | _ => false
+  end
+  && fixb t 18 (ivk_t k) && fixb t 17 (ivk_s k) && fixb t 16 (ivk_o k).
+
+Definition enc_ok (e : bytes * bytes) : bool := is_bytes (fst e) && is_bytes (snd e).
+
 Definition wf_case (c : case) : bool :=
   match c with
   | CIntersect _ _ _ | CReqsNew _ _ _ _ | CReqsUnsafeNew _ _ _ _ | CCrypto _ _ => true
@@ -66,12 +98,20 @@ Definition wf_case (c : case) : bool :=
   | CUskToUfvk t k _ => wf_tab t && wf_usk k
   | CUfvkToUivk t k _ => wf_tab t && wf_ufvk k
   | CUskEncode k _ => wf_usk k
-  | CUskDecode t orig b _ => wf_tab t && is_bytes b && match orig with Some k => wf_usk k | None => true end
+  | CUskDecode t orig b _ =>
+      wf_tab t && is_bytes b && match orig with Some k => wf_usk k && usk_claim t k b | None => true end
   | CUfvkEncode net k _ => (net <? 3) && wf_ufvk k
-  | CUfvkDecode t net orig i _ =>
-      wf_tab t && (net <? 3) && wf_dinput i && match orig with Some k => wf_ufvk k | None => true end
+  | CUfvkDecode t net orig i o =>
+      wf_tab t && (net <? 3) && wf_dinput i
+      && match orig with Some k => wf_ufvk k && ufvk_claim t net k i | None => true end
+      && match o with Ok (k, e) => wf_ufvk k && enc_ok e | _ => true end
   | CUivkEncode net k _ => (net <? 3) && wf_uivk k
-  | CUivkDecode t net orig i _ =>
-      wf_tab t && (net <? 3) && wf_dinput i && match orig with Some k => wf_uivk k | None => true end
-  | CAddr t k j r _ | CFind t k j r _ => wf_tab t && wf_lvl k && (j <? DIVERSIFIER_SPACE) && wf_request r
+  | CUivkDecode t net orig i o =>
+      wf_tab t && (net <? 3) && wf_dinput i
+      && match orig with Some k => wf_uivk k && uivk_claim t net k i | None => true end
+      && match o with Ok (k, e) => wf_uivk k && enc_ok e | _ => true end
+  | CAddr t k j r _ => wf_tab t && wf_lvl k && (j <? DIVERSIFIER_SPACE) && wf_request r
+  | CFind t k j r os =>
+      wf_tab t && wf_lvl k && (j <? DIVERSIFIER_SPACE) && wf_request r
+      && forallb (fun o : find_res => match o with Err FindOutOfFuel => false | _ => true end) os
   end.
